@@ -128,6 +128,21 @@ def check(ctx: Ctx, ev: Evidence) -> list[Finding]:
                     ev.inst("C14-R3", k, "violation" if tidv is None else "ok", x.site)
                     if tidv is None:
                         out.append(Finding("C14-R3", k, f"{x.name} is issued with transaction_id=None (the parameter block was replaced earlier in the call)", x.site, witness_of(a, e)))
+            kinds = {x.name.split(".")[1] for _, x in cbs}
+            if "abandoned_cb" in kinds and len(kinds) > 1:
+                k = f"{which} handler | abandonment together with {sorted(kinds - {'abandoned_cb'})} in one call"
+                if k not in seen:
+                    seen.add(k)
+                    ev.inst("C14-R3", k, "violation", cbs[0][1].site)
+                    out.append(Finding("C14-R3", k, f"one fault declaration fires the abandon callback and also {sorted(kinds - {'abandoned_cb'})}: another callback kind than the configured one is invoked", cbs[0][1].site, witness_of(a, e)))
+            for _i, x in cbs:
+                tidv = x.args[0]
+                k = f"{which} handler | {x.name} transaction id {'None' if tidv is None else 'set'}"
+                if k not in seen:
+                    seen.add(k)
+                    ev.inst("C14-R3", k, "violation" if tidv is None else "ok", x.site)
+                    if tidv is None:
+                        out.append(Finding("C14-R3", k, f"{x.name} is invoked with transaction_id=None (read after the parameter block was replaced)", x.site, witness_of(a, e)))
             per_cond: dict[str, int] = {}
             for i, x in cbs:
                 cond = ename(x.args[1])
@@ -185,6 +200,8 @@ def check(ctx: Ctx, ev: Evidence) -> list[Finding]:
                 if n > 1:
                     sites = sorted({x.func.split('.')[-1] for _, x in cbs if ename(x.args[1]) == cond})
                     out.append(Finding("C14-R4", f"{which} handler | {cond} | reported more than once per call", f"one {cond} fault invokes the configured callback {n} times in one call", cbs[0][1].site, witness_of(a, e)))
+    if table == "default":
+        out += probe_all_codes(ctx, ev)
     ev.extra["explanation"] = f"fault declaration sites (syntax tree), report_fault/set_handler decision tables (abstract evaluation), and every fault-callback event on the ATS edges of both handlers ({table} fault table)"
     ev.assume("quick tier: the default fault-handler table; thorough tier: every handler code for every condition")
     return out
@@ -192,3 +209,51 @@ def check(ctx: Ctx, ev: Evidence) -> list[Finding]:
 
 def show(e) -> str:
     return e.label[0] + (f"({e.label[1]})" if len(e.label) > 1 else "()")
+
+
+def probe_all_codes(ctx: Ctx, ev: Evidence) -> list[Finding]:
+    """quick-tier companion of the free-table ATS: the fault-declaration helper of each handler is interpreted
+    directly, for every condition of the table and every handler code, from a sample of reachable busy states;
+    the callback must receive the transaction id and progress captured before the dispatch."""
+    import ast as _ast
+    from ..ats import Harness
+    from ..values import FreeDict as _FD, Ref as _Ref
+    ev.rule("C14-R5", "fault-declaration helper under every handler code: callback gets the transaction id and progress captured before the dispatch", 8)
+    out: list[Finding] = []
+    for which in ("source", "dest"):
+        a = ctx.ats(which)
+        h = Harness(ctx.prog, which, "free")
+        cands = [f for f in ctx.prog.functions.values() if f.cls == h.cls and any(isinstance(n, _ast.Attribute) and n.attr == "get_fault_handler" for n in _ast.walk(f.node)) and len(f.params) == 2]
+        if len(cands) != 1:
+            raise AnalysisError(f"fault-declaration helper of the {which} handler not found ({len(cands)} candidates)")
+        fi = cands[0]
+        # sample: first busy node per step
+        sample: dict[str, int] = {}
+        for i in sorted(a.expanded):
+            w = a.h.watch(a.nodes[i])
+            if state_of(a, w) == "BUSY" and not a.h.wget(w, "_pdus_to_be_sent") and a.h.wget(w, "_params.transaction_id") is not None:
+                sample.setdefault(step_of(a, w), i)
+        fh_oid = next(o for o, obj in h.node0.heap.items() if obj.get("$role") == "fault")
+        seen: set[str] = set()
+        for step, ni in sorted(sample.items()):
+            for cond in [k for k, _ in h.default_table.items]:
+                st = a.nodes[ni].fork()
+                st.set_field(fh_oid, "_handler_dict", h.node0.heap[fh_oid]["_handler_dict"])
+                tid0 = h.read_term(st, "_params.transaction_id")
+                prog0 = h.read_term(st, "_params.fp.progress")
+                ex: list = []
+                res = h.ip.call_repo(fi, h.self_ref, [cond], {}, st, ex, "<probe>")
+                for _v, s2 in list(res) + [(None, s) for _x, s in ex]:
+                    code = s2.mon.get("o:" + repr(("fh", repr(cond))))
+                    for x in s2.ev:
+                        if x.kind == "env" and x.name.startswith("fault."):
+                            ok = x.args[0] == tid0 and x.args[0] is not None and (x.args[2] == prog0 or code is None)
+                            k = f"{which} handler | code {ename(code)}: {x.name}(transaction id {'as captured' if x.args[0] == tid0 else repr(x.args[0])}, progress {'as captured' if x.args[2] == prog0 else repr(x.args[2])})"
+                            if k in seen:
+                                continue
+                            seen.add(k)
+                            ev.inst("C14-R5", k, "ok" if ok else "violation", x.site)
+                            if not ok:
+                                out.append(Finding("C14-R5", f"{which} handler | {x.name} under code {ename(code)} | id {x.args[0]!r} progress {x.args[2]!r}",
+                                                   f"with handler code {ename(code)} the fault callback receives transaction id {x.args[0]!r} / progress {x.args[2]!r} instead of the values of the faulting transaction", x.site))
+    return out
